@@ -787,18 +787,28 @@ impl ByteCodeGenerator {
                     let phi_size = std::cmp::max(t_size, e_size);
                     let phi = self.get_destination(phidst.clone(), phi_size);
 
-                    let t = self.find(t);
-                    then_bytecodes.push(if phi_size == 1 {
-                        VmInstruction::Move(phi, t)
-                    } else {
-                        VmInstruction::MoveRange(phi, t, phi_size)
-                    });
-                    let e = self.find(e);
-                    else_bytecodes.push(if phi_size == 1 {
-                        VmInstruction::Move(phi, e)
-                    } else {
-                        VmInstruction::MoveRange(phi, e, phi_size)
-                    });
+                    // An arm of unit type (e.g. `if (c) { g = g + 1.0 }` or `if (c) { f() }`
+                    // with `f` returning unit, without else) yields no value: there is
+                    // nothing to move into the phi register.
+                    let is_unit = |v: &Arc<mir::Value>, size: u64| {
+                        matches!(v.as_ref(), mir::Value::None) || size == 0
+                    };
+                    if !is_unit(t, t_size as u64) {
+                        let t = self.find(t);
+                        then_bytecodes.push(if phi_size == 1 {
+                            VmInstruction::Move(phi, t)
+                        } else {
+                            VmInstruction::MoveRange(phi, t, phi_size)
+                        });
+                    }
+                    if !is_unit(e, e_size as u64) {
+                        let e = self.find(e);
+                        else_bytecodes.push(if phi_size == 1 {
+                            VmInstruction::Move(phi, e)
+                        } else {
+                            VmInstruction::MoveRange(phi, e, phi_size)
+                        });
+                    }
                 } else {
                     unreachable!("Unexpected inst: {pinst:?}");
                 }
